@@ -20,11 +20,21 @@ struct St {
     acc: Option<Val>,
     /// keyed accumulators in first-arrival order of the key
     keyed: Vec<(Val, Val)>,
+    /// "unspecified" taint (see `Interp::tick`): sticky for stateful operators / one-tick delay line
+    tainted: bool,
 }
 
 pub struct Interp<'a> {
     prog: &'a Prog,
     st: Vec<St>,
+    tick_no: usize,
+}
+
+/// One tick's expected sink contents. `unspecified[sink]` = the docs do not determine this sink's
+/// content in this tick (so it must not be compared).
+pub struct TickOut {
+    pub sinks: Vec<Vec<Val>>,
+    pub unspecified: Vec<bool>,
 }
 
 fn w8(x: u64) -> u64 {
@@ -102,19 +112,49 @@ fn fused_fold(acc: &mut Vec<(Val, Val)>, items: &[Val]) {
 
 impl<'a> Interp<'a> {
     pub fn new(prog: &'a Prog) -> Self {
-        Interp { prog, st: vec![St::default(); prog.nodes.len()] }
+        Interp { prog, st: vec![St::default(); prog.nodes.len()], tick_no: 0 }
     }
 
     /// Run one tick. `inputs[s]` = items arriving on source `s` before this tick.
     /// Returns the items recorded per sink index in this tick.
-    pub fn tick(&mut self, inputs: &[Vec<(u8, u8)>]) -> Vec<Vec<Val>> {
+    ///
+    /// "Unspecified" taint: the one place where the docs leave the per-tick output open although
+    /// the operator is otherwise documented is `fold_no_replay` in tick 0 without input ("does not
+    /// replay the accumulated value on ticks where there is no new input" - whether the *initial*
+    /// value is announced once is not said). That output is marked unspecified; the mark flows
+    /// through stateless operators within the tick, through `defer_tick` with its delay, and
+    /// sticks to every stateful operator it reaches (conservative).
+    pub fn tick(&mut self, inputs: &[Vec<(u8, u8)>]) -> TickOut {
         use Op::*;
         let prog = self.prog;
+        let tick_no = self.tick_no;
+        self.tick_no += 1;
         let mut sinks: Vec<Vec<Val>> = vec![vec![]; prog.n_sinks()];
+        let mut sink_unspec = vec![false; prog.n_sinks()];
         let mut outs: Vec<Vec<Vec<Val>>> = Vec::with_capacity(prog.nodes.len());
+        let mut unspec: Vec<bool> = Vec::with_capacity(prog.nodes.len());
         for (ni, node) in prog.nodes.iter().enumerate() {
             let inp: Vec<&Vec<Val>> = node.ins.iter().map(|&(n, p)| &outs[n][p]).collect();
             let st = &mut self.st[ni];
+            let in_taint = node.ins.iter().any(|&(n, _)| unspec[n]) || matches!(node.op, RefMap(n) if unspec[n]);
+            let out_taint = match &node.op {
+                Sink(i) | Probe(i) => {
+                    sink_unspec[*i] |= in_taint;
+                    in_taint
+                }
+                Src(_) | Empty | Null | Map(_) | Filter | FilterMap | FlatMap | Flatten | Identity | Handoff | Singleton
+                | RefMap(_) | Tee | Unzip | Partition | DemuxEnum | Union | Chain | ChainFirstN(_) | Sort | SortByKey => in_taint,
+                DeferTick | DeferTickLazy => std::mem::replace(&mut st.tainted, in_taint),
+                FoldNoReplay(..) => {
+                    st.tainted |= in_taint;
+                    st.tainted || (tick_no == 0 && inp[0].is_empty())
+                }
+                _ => {
+                    st.tainted |= in_taint;
+                    st.tainted
+                }
+            };
+            unspec.push(out_taint);
             let o: Vec<Vec<Val>> = match &node.op {
                 Src(i) => vec![inputs.get(*i).map(|v| v.iter().map(|&(a, b)| Val::kv(a, b)).collect()).unwrap_or_default()],
                 Empty => vec![vec![]],
@@ -475,14 +515,22 @@ impl<'a> Interp<'a> {
             debug_assert_eq!(o.len(), node.op.n_out());
             outs.push(o);
         }
-        sinks
+        TickOut { sinks, unspecified: sink_unspec }
     }
 }
 
-/// Run a whole history: `hist[tick][source]`. Result `[tick][sink] -> items`.
-pub fn run(prog: &Prog, hist: &[Vec<Vec<(u8, u8)>>]) -> Vec<Vec<Vec<Val>>> {
+/// Run a whole history: `hist[tick][source]`. Result: `[tick][sink] -> items` and
+/// `[tick][sink] -> unspecified?`.
+pub fn run(prog: &Prog, hist: &[Vec<Vec<(u8, u8)>>]) -> (Vec<Vec<Vec<Val>>>, Vec<Vec<bool>>) {
     let mut it = Interp::new(prog);
-    hist.iter().map(|t| it.tick(t)).collect()
+    let mut tr = vec![];
+    let mut un = vec![];
+    for t in hist {
+        let o = it.tick(t);
+        tr.push(o.sinks);
+        un.push(o.unspecified);
+    }
+    (tr, un)
 }
 
 /// Canonical form of one tick's items on one sink under the sink's comparison flag.
